@@ -209,7 +209,9 @@ impl fmt::Display for Formatter {
                     }
                     Token::DayOfYearInteger => {
                         write_sep(f, i, &self.format)?;
-                        write!(f, "{:03}", self.epoch.day_of_year().floor() as u16)?
+                        // Whole days since the start of the year, counted with integers: a floating
+                        // point day of year rounds up in the last nanoseconds of a day.
+                        write!(f, "{:03}", self.epoch.duration_in_year().decompose().1 + 1)?
                     }
                     Token::DayOfYear => {
                         write_sep(f, i, &self.format)?;
@@ -283,7 +285,9 @@ impl fmt::Display for Formatter {
                     }
                     Token::DayOfYearInteger => {
                         write_sep(f, i, &self.format)?;
-                        write!(f, "{:03}", self.epoch.day_of_year().floor() as u16)?
+                        // Whole days since the start of the year, counted with integers: a floating
+                        // point day of year rounds up in the last nanoseconds of a day.
+                        write!(f, "{:03}", self.epoch.duration_in_year().decompose().1 + 1)?
                     }
                     Token::DayOfYear => {
                         write_sep(f, i, &self.format)?;
